@@ -132,7 +132,8 @@ def byte_pieces(rng, n, bs):
     pieces straddling boundaries"""
     pieces, left = [], n
     while left > 0:
-        cands = [0, 1, bs - 1, bs, bs + 1, 2 * bs, 2 * bs + 3, rng.randint(0, left), rng.randint(0, min(left, 3 * bs + 2))]
+        cands = [0, 1, bs - 1, bs, bs + 1, 2 * bs, 2 * bs + 3, 4 * bs, 4 * bs + 1, 5 * bs + 2, rng.randint(0, left),
+                 rng.randint(0, min(left, 3 * bs + 2))]
         k = rng.choice([c for c in cands if 0 <= c <= left])
         pieces.append(k)
         left -= k
@@ -189,3 +190,10 @@ def stream_iv(rng, bs, kind, key, dm):
             s0 = (rng.getrandbits(64) << 64) | ((1 << 64) - 1 - rng.choice([0, 1, 2, 3, 5, 8]))
         return tc.D(s0.to_bytes(16, "little"))
     return boundary_iv(rng, bs, kind)
+
+
+def async_op(case, rng, obj, msg):
+    """one-shot AsyncStreamCipher call, in place or buffer-to-buffer over arbitrary output contents"""
+    if rng.random() < 0.5:
+        return case.op("async %s ip %s" % (obj, hx(msg)))
+    return case.op("async %s b2b %s %s" % (obj, hx(msg), hx(rbytes_n(rng, len(msg)))))
